@@ -373,6 +373,32 @@ func run(c *Case, identity bool, st *Stats) *vf.Failure {
 				churnNext += 200
 			}
 			st.Classes["index-nodes-emptied-and-page-ids-recycled"] = true
+		case "emptyfirst":
+			// a helper table of several heap pages whose oldest rows are deleted: the first heap page holds no live row any more
+			if _, ok := m.Tables["ef"]; !ok {
+				hd := &dbh.TableDef{Name: "ef", Cols: []dbh.Col{{Name: "id", T: "i", Idx: dbh.IdxSkip}, {Name: "s", T: "s", Idx: dbh.IdxNone}}}
+				if err := db.CreateTable(hd); err != nil {
+					return vf.Failf("create-error", "%s %s: %v", when, hd.Name, err)
+				}
+				m.Create(hd)
+				defs = append(defs, hd)
+				for b := 0; b < 160; b += 40 {
+					ins := &dbh.Stmt{Kind: "insert", Table: "ef", Cols: []string{"id", "s"}}
+					for i := b; i < b+40; i++ {
+						ins.Rows = append(ins.Rows, dbh.Row{dbh.IntV(int32(i)), dbh.StrV(strings.Repeat("e", 90))})
+					}
+					if _, err := db.Auto(ins); err != nil {
+						return vf.Failf("dml-error", "%s %s: %v", when, "insert into ef", err)
+					}
+					m.Apply(ins, dbh.EvalMode{})
+				}
+				del := &dbh.Stmt{Kind: "delete", Table: "ef", Where: dbh.Leaf("id", "<", dbh.IntV(70))}
+				if _, err := db.Auto(del); err != nil {
+					return vf.Failf("dml-error", "%s %s: %v", when, del, err)
+				}
+				m.Apply(del, dbh.EvalMode{})
+				st.Classes["first-heap-page-emptied"] = true
+			}
 		case "biglog":
 			// one session writes more log (about 600 KB) than the log buffer / recovery read buffer (516 KB) holds
 			if _, ok := m.Tables["bl"]; !ok {
@@ -469,6 +495,8 @@ type GenOpts struct {
 	OnExcluded             func(string)
 	// BigLogPct: share of operations (at most one per history) that insert about 600 KB into a helper table in one session
 	BigLogPct int
+	// EmptyFirstPct: share of operations (at most one per history) that fill a helper table of several pages and delete its oldest rows
+	EmptyFirstPct int
 	// ChurnPct: share of operations (at most three per history) that fill and thin out a helper table with skip-list indexes
 	ChurnPct int
 	// BigJoinPct: share of operations that run a hash join over two helper tables (400 x 400 rows)
@@ -491,7 +519,7 @@ func Gen(t *rapid.T, o GenOpts) *Case {
 	g := &gstate{ids: map[string][]int32{}}
 	n := rapid.IntRange(3, 18).Draw(t, "nops")
 	nIdx, nBtree := 0, 0
-	bigLogDone := false
+	bigLogDone, emptyFirstDone := false, false
 	nChurn := 0
 	if o.ManyTablesPct > 0 && rapid.IntRange(0, 99).Draw(t, "many") < o.ManyTablesPct {
 		nw := rapid.IntRange(9, 13).Draw(t, "nwide")
@@ -508,7 +536,13 @@ func Gen(t *rapid.T, o GenOpts) *Case {
 				name = fmt.Sprintf("long_named_table_%03d_%s", w, strings.Repeat("n", 128))
 			}
 			def := &dbh.TableDef{Name: name}
-			for ci, cn := range colNames {
+			names := colNames
+			if !longNames {
+				// column names in any order of lengths, one of them long: the columns' catalog rows have very different sizes
+				names = append([]string{}, rapid.Permutation(colNames).Draw(t, "colorder")...)
+				names[rapid.IntRange(0, len(names)-1).Draw(t, "longcol")] = "col_" + strings.Repeat("x", rapid.IntRange(20, 70).Draw(t, "longcollen"))
+			}
+			for ci, cn := range names {
 				cl := dbh.Col{Name: cn, T: rapid.SampledFrom([]string{"i", "i", "f", "s"}).Draw(t, "wtype"), Idx: dbh.IdxNone}
 				if ci == 0 && rapid.Bool().Draw(t, "widx") {
 					cl.Idx = dbh.IdxSkip
@@ -536,6 +570,15 @@ func Gen(t *rapid.T, o GenOpts) *Case {
 			bigLogDone = true
 			c.Ops = append(c.Ops, Op{K: "biglog"})
 			if rapid.IntRange(0, 2).Draw(t, "logrestart") != 0 {
+				c.Ops = append(c.Ops, Op{K: restartKind(t, o, c, nBtree)})
+			}
+			continue
+		}
+		if o.EmptyFirstPct > 0 && len(g.defs) > 0 && !emptyFirstDone && rapid.IntRange(0, 99).Draw(t, "emptyfirst") < o.EmptyFirstPct {
+			emptyFirstDone = true
+			nIdx++
+			c.Ops = append(c.Ops, Op{K: "emptyfirst"})
+			if rapid.IntRange(0, 2).Draw(t, "efrestart") != 0 {
 				c.Ops = append(c.Ops, Op{K: restartKind(t, o, c, nBtree)})
 			}
 			continue
@@ -602,7 +645,7 @@ func Gen(t *rapid.T, o GenOpts) *Case {
 			c.Ops = append(c.Ops, Op{K: restartKind(t, o, c, nBtree)})
 		}
 	}
-	if k := c.Ops[len(c.Ops)-1].K; k == "create" || k == "dml" || k == "abort-txn" || k == "bigjoin" || k == "biglog" || k == "churn" {
+	if k := c.Ops[len(c.Ops)-1].K; k == "create" || k == "dml" || k == "abort-txn" || k == "bigjoin" || k == "biglog" || k == "churn" || k == "emptyfirst" {
 		c.Ops = append(c.Ops, Op{K: restartKind(t, o, c, nBtree)})
 	}
 	frames := 3*nIdx + 8*nBtree + 10 + rapid.SampledFrom([]int{0, 6, 30, 100}).Draw(t, "spare")
